@@ -52,6 +52,7 @@ _LEAN_KEYWORDS = {'end', 'from', 'at', 'in', 'do', 'then', 'else', 'if', 'let', 
                   'namespace', 'section', 'variable', 'mut', 'for', 'return', 'try', 'catch', 'finally',
                   'n', }  # `n` is not a keyword but py `n` shadows badly in messages — keep; removed below
 _LEAN_KEYWORDS.discard('n')
+_LEAN_KEYWORDS |= {'s', 'x', 'rest', 'v', 'e'}     # names used by the generated loop scaffolding
 
 
 class FnTranslator:
@@ -491,12 +492,65 @@ class FnTranslator:
         return '\n'.join(lines)
 
 
+class _WriteBack(ast.NodeTransformer):
+    """`for x in L: … x[i] op= e …`  mutates the elements of L through the loop variable.  Under the value
+    semantics of the fragment this is rewritten (faithfully, as long as L itself is not touched in the body and
+    the body has no continue/return) into
+
+        _wbK = []
+        for x in L:
+            …
+            _wbK.append(x)
+        L = _wbK
+    """
+    def __init__(self):
+        self.k = 0
+
+    def visit_For(self, node):
+        self.generic_visit(node)
+        if not (isinstance(node.target, ast.Name) and isinstance(node.iter, ast.Name)):
+            return node
+        var, lst = node.target.id, node.iter.id
+
+        def root(t):
+            while isinstance(t, ast.Subscript):
+                t = t.value
+            return t.id if isinstance(t, ast.Name) else None
+        mutates = False
+        for n in ast.walk(node):
+            tg = []
+            if isinstance(n, ast.Assign):
+                tg = n.targets
+            elif isinstance(n, ast.AugAssign):
+                tg = [n.target]
+            for t in tg:
+                if isinstance(t, ast.Subscript) and root(t) == var:
+                    mutates = True
+                if root(t) == lst or (isinstance(t, ast.Name) and t.id == lst):
+                    raise Untranslatable(f'loop over {lst} assigns to {lst}')
+        if not mutates:
+            return node
+        for n in ast.walk(node):
+            if isinstance(n, (ast.Continue, ast.Return, ast.Break)):
+                raise Untranslatable('element mutation in a loop with continue/return/break')
+        self.k += 1
+        wb = f'_wb{self.k}'
+        init = ast.Assign(targets=[ast.Name(id=wb, ctx=ast.Store())], value=ast.List(elts=[], ctx=ast.Load()))
+        app = ast.Expr(value=ast.Call(func=ast.Attribute(value=ast.Name(id=wb, ctx=ast.Load()), attr='append',
+                                                         ctx=ast.Load()),
+                                      args=[ast.Name(id=var, ctx=ast.Load())], keywords=[]))
+        node.body = node.body + [app]
+        fin = ast.Assign(targets=[ast.Name(id=lst, ctx=ast.Store())], value=ast.Name(id=wb, ctx=ast.Load()))
+        return [init, node, fin]
+
+
 def get_fn_node(obj):
     src = textwrap.dedent(inspect.getsource(obj))
     mod = ast.parse(src)
     fn = mod.body[0]
     if not isinstance(fn, ast.FunctionDef):
         raise Untranslatable('not a function definition')
+    fn = ast.fix_missing_locations(_WriteBack().visit(fn))
     return fn, src
 
 
